@@ -492,11 +492,12 @@ Proof.
   - repeat constructor; unfold TAB, LF, CR; simpl; try lia; try discriminate.
 Qed.
 
-(* a LAZY FASTQ table whose quality column was replaced cannot be written (get_column refuses a RaggedArray of qualities):
-   the Spec accepts a refusal only for BAM.  (After np.concatenate the table is eager and the same replacement is written.) *)
+(* HISTORY (code before /repo ddae115, explicit `pinned` variant): a LAZY FASTQ table whose quality column was replaced could not
+   be written (get_column refused a RaggedArray of qualities); the Spec accepts a refusal only for BAM.  Repaired: see
+   C04_oneline_write_total and C04_lazy_quality_fixed_witness below. *)
 Theorem C04_fastq_lazy_quality_refuted :
   exists recs p, fields_ok (n_fields FFastq) p = true
-    /\ spec_out_ok FFastq recs p (model_out_v current FFastq (layout FFastq recs) p) = false.
+    /\ spec_out_ok FFastq recs p (model_out_v pinned FFastq (layout FFastq recs) p) = false.
 Proof. exists w_fq2, (PRepl 2 [unhex "4949"; unhex ""] PSrc). vm_compute. split; reflexivity. Qed.
 Print Assumptions C04_fastq_lazy_quality_refuted.
 
@@ -513,3 +514,28 @@ Theorem C04_source_tie_oneline :
         /\ read v FFasta data = option_map (fun x => SLazy x []) (from_oneline gen_fa_n_lines gen_fa_line_offsets data)).
 Proof. exact (conj b_ol_line_len (conj b_fq_join (conj b_fa_join b_ol_read))). Qed.
 Print Assumptions C04_source_tie_oneline.
+
+(* ================= round 6 re-sync (/repo 1078c5e): nothing is refused any more for the one-line buffers ================= *)
+(* with the repaired get_column (v_lazyqual, the variant in force) every FASTQ / FASTA table — lazy with any replaced columns,
+   quality included, or eager — is written: C04_oneline_program_end_to_end has no refusal branch left *)
+Theorem C04_oneline_write_total :
+  forall v f st, oneline f -> v_lazyqual v = true -> exists out, write v f st = Some out.
+Proof. exact write_total. Qed.
+Print Assumptions C04_oneline_write_total.
+
+(* the former witness of the refusal, and a MIXED concatenation (an eager operand = an earlier concatenation, next to lazy
+   operands, one of them with a replaced quality column — since /repo 5965ca7 an ordinary program), under the variant in force *)
+Definition p_mixed := PCat [PCat [PIdx [1] PSrc; PSrc]; PRepl 2 [unhex "4949"; unhex ""] PSrc; PIdx [0] PSrc].
+Example C04_lazy_quality_fixed_witness :
+  v_lazyqual current = true
+  /\ model_out_v current FFastq (layout FFastq w_fq2) (PRepl 2 [unhex "4949"; unhex ""] PSrc)
+      = Some (unhex "4072310a41430a2b0a49490a" ++ unhex "40780a0a2b0a0a")
+  /\ spec_out_ok FFastq w_fq2 (PRepl 2 [unhex "4949"; unhex ""] PSrc)
+        (model_out_v current FFastq (layout FFastq w_fq2) (PRepl 2 [unhex "4949"; unhex ""] PSrc)) = true
+  /\ fields_ok (n_fields FFastq) p_mixed = true
+  /\ (exists o, model_out_v current FFastq (layout FFastq w_fq2) p_mixed = Some o /\ List.length o = 57%nat
+                 /\ spec_out_ok FFastq w_fq2 p_mixed (Some o) = true).
+Proof.
+  split; [reflexivity|]. split; [vm_compute; reflexivity|]. split; [vm_compute; reflexivity|]. split; [reflexivity|].
+  eexists. split; [vm_compute; reflexivity|]. split; vm_compute; reflexivity.
+Qed.
